@@ -99,8 +99,9 @@ SYNTAX_CLASSES = ('missing-value', 'partial-packet', 'empty-loop-header', 'loop-
 
 class Case:
     def __init__(self, name, lines, code, lo, hi, content, opts=None, final_newline=True, alt_content=None, klass=None,
-                 position=None):
+                 position=None, twin_lines=None):
         self.name = name
+        self.twin_lines = twin_lines      # the same defect with a longer token: the whole code sequence must be the same
         self.lines = lines
         self.code = code          # first error code (None: no callback allowed)
         self.lo = lo              # 1-based line interval for the first report
@@ -128,7 +129,7 @@ def insertion_cases():
     cases = []
     for slot, (idx, sel) in SLOTS.items():
         # the token following the insertion lies on host line idx+1 (1-based), i.e. new line idx+2
-        def mk(name, ins, code, edit=None, hi_extra=0, final_newline=True, alt=None, opts=None):
+        def mk(name, ins, code, edit=None, hi_extra=0, final_newline=True, alt=None, opts=None, twin=None):
             lines = HOST_LINES[:idx] + ins + HOST_LINES[idx:]
             c = host_content()
             if edit:
@@ -139,7 +140,8 @@ def insertion_cases():
             if alt:
                 a = host_content()
                 alt(target(a, sel), a)
-            cases.append(Case('%s@%s' % (name, slot), lines, code, lo, hi, c, final_newline=final_newline, alt_content=a, opts=opts))
+            cases.append(Case('%s@%s' % (name, slot), lines, code, lo, hi, c, final_newline=final_newline, alt_content=a, opts=opts,
+                              twin_lines=(HOST_LINES[:idx] + twin + HOST_LINES[idx:]) if twin else None))
         at_end = slot == 'end-of-input'
         mk('missing-value', ['_mv'], CIF_MISSING_VALUE, lambda t, c: set_item(t, '_mv', UNK))
         if at_end:
@@ -244,8 +246,12 @@ def insertion_cases():
         mk('missing-key', ["_mk {'a':1 stray 'b':2}"], CIF_MISSING_KEY, lambda t, c: set_item(t, '_mk', ('table', (('a', u('1')), ('b', u('2'))))))
         mk('missing-key-quoted', ["_mk {'a':1 'stray' 'b':2}"], CIF_MISSING_KEY, lambda t, c: set_item(t, '_mk', ('table', (('a', u('1')), ('b', u('2'))))))
         mk('missing-key-list', ["_mk {[1 2] 'b':2}"], CIF_MISSING_KEY, lambda t, c: set_item(t, '_mk', ('table', (('b', u('2')),))))
-        mk('null-key', ["_nk {:v 'b':2}"], CIF_NULL_KEY, lambda t, c: set_item(t, '_nk', ('table', (('b', u('2')),))))
-        mk('unquoted-key', ["_uk {a:1 'b':2}"], CIF_UNQUOTED_KEY, lambda t, c: set_item(t, '_uk', ('table', (('a', u('1')), ('b', u('2'))))))
+        mk('null-key', ["_nk {:v 'b':2}"], CIF_NULL_KEY, lambda t, c: set_item(t, '_nk', ('table', (('b', u('2')),))), twin=["_nk {:vw 'b':2}"])
+        mk('null-key-after-entry', ["_nk {'a':5 :1 'b':2}"], CIF_NULL_KEY, lambda t, c: set_item(t, '_nk', ('table', (('a', u('5')), ('b', u('2'))))),
+           twin=["_nk {'a':5 :123 'b':2}"])
+        mk('null-key-last', ["_nk {'b':2 :v}"], CIF_NULL_KEY, lambda t, c: set_item(t, '_nk', ('table', (('b', u('2')),))), twin=["_nk {'b':2 :vwx}"])
+        mk('unquoted-key', ["_uk {a:1 'b':2}"], CIF_UNQUOTED_KEY, lambda t, c: set_item(t, '_uk', ('table', (('a', u('1')), ('b', u('2'))))),
+           twin=["_uk {a:12 'b':2}"])
         # the colon ends the white-space delimited token: the value follows after blanks, or as a text field on the next line
         mk('unquoted-key-then-blank', ["_uk {abc: 1 'b':2}"], CIF_UNQUOTED_KEY, lambda t, c: set_item(t, '_uk', ('table', (('abc', u('1')), ('b', u('2'))))))
         mk('unquoted-key-then-text-field', ['_uk {abc:', ';txt', ';', '}'], CIF_UNQUOTED_KEY, lambda t, c: set_item(t, '_uk', ('table', (('abc', q('txt')),))))
@@ -409,6 +415,19 @@ def run_case(ctx, L, i, case, style):
         if res.rc != CIF_OK:
             ctx.violation('recover:%s:rc:%d' % (label, res.rc), 'all errors were accepted but cif_parse returned %d (errors %r)' % (res.rc, codes[:6]), info)
             return
+        if case.twin_lines:
+            ttext = '\n'.join(case.twin_lines) + '\n'
+            if style != 'lf':
+                ttext = ttext.replace('\n', '\r\n' if style == 'crlf' else '\r')
+            tw = parsing.parse(L, ttext.encode('utf-8'), opts, 'new', 'accept')
+            if tw.cif:
+                L.destroy(tw.cif)
+            ctx.count('twin_documents')
+            tcodes = [e[0] for e in tw.errors]
+            if tcodes != codes:
+                ctx.violation('recover:%s:sequence-depends-on-token-length' % label, 'defect %s: codes %r, but %r when the token after the defect is longer (%r)'
+                              % (case.name, codes[:6], tcodes[:6], [l for l in case.twin_lines if l not in case.lines][:1]), info)
+                return
         got = D.dump(L, res.cif)
         want = GC.expected_dump(case.content, 2)
         if got != want:
